@@ -13,6 +13,7 @@ import (
 
 	"verif/mc/engine"
 	"verif/mc/real"
+	"verif/mc/ref"
 	"verif/mc/sched"
 )
 
@@ -226,6 +227,48 @@ func C14Scenarios() []sched.Scenario {
 			}
 		}
 		return []sched.Body{mk(""), mk(""), mk("x")}
+	}})
+	// one parsed tree handed to two engines that compile it against differently typed environments
+	out = append(out, sched.Scenario{Name: "one-parsed-tree-two-engines", Build: func() []sched.Body {
+		tree := newHostEngine(real.VMSwitch).Parse(`[[x, y], [y, x]][0][k] == get([x, y], k, x)`)
+		body := func(b real.Backend, spec real.EnvSpec) sched.Body {
+			return func() (out string) {
+				defer func() {
+					if r := recover(); r != nil {
+						out = "PANIC " + stable(fmt.Sprint(r))
+					}
+				}()
+				cl := newHostEngine(b).CompileExpr(tree, spec.RawTypeEnv())
+				v := cl(real.RuntimeEnv(real.QuietHost(), spec))
+				return fmt.Sprint(v, " : ", v.Type)
+			}
+		}
+		nums := real.EnvSpec{Rep: "raw", Binds: []real.Binding{{Name: "x", V: ref.NumV(1)}, {Name: "y", V: ref.NumV(2)}, {Name: "k", V: ref.NumV(0)}}}
+		strs := real.EnvSpec{Rep: "raw", Binds: []real.Binding{{Name: "x", V: ref.StrV("a")}, {Name: "y", V: ref.StrV("b")}, {Name: "k", V: ref.NumV(1)}}}
+		return []sched.Body{body(real.VMSwitch, nums), body(real.Closure, strs), body(real.Interp, nums)}
+	}})
+	// an invocation that fails inside a lazily evaluated argument, followed by invocations that
+	// overlap at host-function calls (state released on the error path must not be handed out twice)
+	out = append(out, sched.Scenario{Name: "failure-in-thunk-then-overlapping-invocations", Build: func() []sched.Body {
+		e := newHostEngine(real.VMSwitch)
+		env := map[string]interface{}{"x": 3, "l": []int{1, 2}}
+		failing, err1 := e.Compile(`second(x, l[9]) + 1`, env)
+		a, err2 := e.Compile(`id(x) * 10 + id(l[1])`, env)
+		b, err3 := e.Compile(`(id(x + 5) - id(l[0])) * 2 - 1`, env)
+		run := func(cbs ...yae.Callable) sched.Body {
+			return func() string {
+				if err1 != nil || err2 != nil || err3 != nil {
+					return fmt.Sprint("ERROR compile ", err1, err2, err3)
+				}
+				var outs []string
+				for _, cb := range cbs {
+					v, err := cb(env)
+					outs = append(outs, outcomeOf(v, err))
+				}
+				return strings.Join(outs, " | ")
+			}
+		}
+		return []sched.Body{run(failing, a), run(b)}
 	}})
 	out = append(out, sched.Scenario{Name: "debug-and-eval", Build: func() []sched.Body {
 		return []sched.Body{
